@@ -20,6 +20,14 @@ pub enum Fault {
     WriteFail,
     /// append: the first `k` bytes (capped to len-1) are written, then the call fails
     Partial(u16),
+    /// append: the first `k` bytes are written, then the call fails with WalError::Io — what a
+    /// real file store reports when write(2) fails after partial progress (the in-tree
+    /// LocalWalWriter never produces PartialWrite): the error kind says nothing about how many
+    /// bytes reached the file
+    PartialIo(u16),
+    /// append: the first `k` bytes are written, then the call fails with WalError::DiskFull
+    /// (ENOSPC after the last free block was filled); not sticky
+    PartialDiskFull(u16),
     /// sync: fails, `synced_len` unchanged
     FsyncFail,
     /// append / create: this call and the next `n - 1` append/create calls fail with
@@ -230,16 +238,23 @@ impl WalFileWriter for TraceWriter {
                     "injected write failure",
                 )))
             }
-            Some(Fault::Partial(k)) => {
+            Some(Fault::Partial(k)) | Some(Fault::PartialIo(k)) | Some(Fault::PartialDiskFull(k)) => {
                 let k = (k as usize).min(data.len().saturating_sub(1));
                 let f = g.files.get_mut(&self.name).unwrap();
                 f.data.extend_from_slice(&data[..k]);
                 rec.written = k;
                 rec.fault = fault;
                 g.log.push(rec);
-                Err(WalError::PartialWrite {
-                    expected: data.len(),
-                    actual: k,
+                Err(match fault {
+                    Some(Fault::PartialIo(_)) => WalError::Io(std::io::Error::new(
+                        std::io::ErrorKind::Other,
+                        "injected write failure after partial progress",
+                    )),
+                    Some(Fault::PartialDiskFull(_)) => WalError::DiskFull,
+                    _ => WalError::PartialWrite {
+                        expected: data.len(),
+                        actual: k,
+                    },
                 })
             }
             _ => {
